@@ -141,7 +141,8 @@ func (s *State) extendMacroEnv(macro *object.Macro, args []object.Quote) *State 
 	extended := object.NewEnclosedEnvironment(macro.Env)
 
 	for paramIdx, param := range macro.Parameters {
-		extended.Set(param.Value().Literal(), args[paramIdx])
+		// always a new binding (like function parameters), never a reference to a macro of the same name.
+		extended.SetNoChecks(param.Value().Literal(), args[paramIdx], true)
 	}
 	res := NewBlankState()
 	res.env = extended
